@@ -67,8 +67,13 @@
    - C02_server_receives_message / C02_client_receives_message: the general step - any message one session sends (Set Chunk Size
      apart, which C02_link_preserved covers) is handled by the peer's handle_input as exactly that decoded message, after the
      acknowledgement prelude, with the chunk layers linked again.
-   Exercised, not proved: metadata/media sequences interleaved with commands in one run, rejects and the play-side finish call
-   at the composed level (their per-session behaviour is C09/C10): the composed model
+   What remains outside these theorems and is decided by the correspondence check only: whole scenarios in which acknowledgements
+   fall due DURING the command exchange (the session theorems ask for window headroom there; the media phase and the stop are
+   proved for every window behaviour), application rejects and the play-side finish call at the composed level (their per-session
+   behaviour is C09/C10/C18), and arbitrary interleavings of the two directions' deliveries within the command exchange.  For
+   these the composed model Model/Interop.v (extracted, compared with the two REAL sessions wired back to back on every case) runs
+   canonical and free scenarios under byte-wise / fixed / mixed fragmentation with the oracles C02.* on the real events;
+   C02_scenario_publish / C02_scenario_play are computed instances of whole scenarios on that model.
 *)
 From RML Require Import Model.Base Model.Utf8 Model.Float Model.Amf0 Model.Chunk Model.ChunkSer Model.ChunkDe Model.Messages Model.SessionCommon Model.Server Model.Client
   Model.Interop Proofs.ChunkSerProofs Proofs.InteropProofs Proofs.SessionPartition Proofs.ClientPartition Proofs.InteropPartition Proofs.MetadataProofs Proofs.InteropMetadata Proofs.Transport Proofs.ServerProofs Proofs.SessionFrame Proofs.SessionTrace Proofs.ClientTrace Proofs.SessionTransport Proofs.ProtocolProofs Proofs.ProtocolFlow Proofs.ProtocolStart Proofs.PlayMetadata Proofs.ProtocolFragments Proofs.AckHeadroom Proofs.SessionScenario Proofs.MetadataFits Proofs.Amf0Size Proofs.ConfigProofs Proofs.FloatProofs Proofs.MessageProofs Proofs.ServerProofs.
